@@ -64,6 +64,9 @@ type pconn struct {
 	stalled    int32 // the proxy stops reading in both directions: TCP back-pressure builds up at the senders
 	dead       int32
 	frames     map[string]int
+	armDir     string // StallAfterBytes: direction watched ...
+	armLeft    int64  // ... payload bytes still to pass before the stall (0 = not armed)
+	armCh      chan struct{}
 }
 
 func NewProxy(target string) (*Proxy, error) {
@@ -205,6 +208,13 @@ func (p *Proxy) acceptLoop() {
 			c.Close()
 			continue
 		}
+		// fixed, modest receive buffers (no autotuning up to tens of megabytes): when the proxy stops reading, the
+		// senders' writes really do block after a few hundred kilobytes
+		for _, x := range []net.Conn{c, s} {
+			if tc, ok := x.(*net.TCPConn); ok {
+				tc.SetReadBuffer(256 * 1024)
+			}
+		}
 		pc := &pconn{p: p, cli: c, srv: s, frames: map[string]int{}}
 		p.mu.Lock()
 		pc.idx = len(p.conns)
@@ -223,6 +233,15 @@ func (pc *pconn) kill(kind string) {
 	case "stall":
 		atomic.StoreInt32(&pc.stalled, 1)
 		return
+	case "wsclose":
+		// a polite peer: a WebSocket close frame (status 1000) towards the client, then the connection is closed
+		if !atomic.CompareAndSwapInt32(&pc.dead, 0, 1) {
+			return
+		}
+		pc.cli.Write([]byte{0x88, 0x02, 0x03, 0xE8})
+		time.Sleep(2 * time.Millisecond)
+		pc.cli.Close()
+		pc.srv.Close()
 	case "rst":
 		if !atomic.CompareAndSwapInt32(&pc.dead, 0, 1) {
 			return
@@ -301,6 +320,56 @@ func (p *Proxy) InjectEmptyFrame() {
 		if atomic.LoadInt32(&pc.dead) == 0 {
 			pc.write(pc.srv, []byte{0x81, 0x80, 1, 2, 3, 4})
 		}
+	}
+}
+
+// InjectPartialFrame writes the first fragment (FIN=0) of a text message towards the server and never completes it.
+func (p *Proxy) InjectPartialFrame() {
+	p.mu.Lock()
+	cs := append([]*pconn{}, p.conns...)
+	p.mu.Unlock()
+	for _, pc := range cs {
+		if atomic.LoadInt32(&pc.dead) == 0 {
+			// opcode text, FIN=0, masked, 5 payload bytes `{"a":` xor mask 0
+			pc.write(pc.srv, []byte{0x01, 0x85, 0, 0, 0, 0, '{', '"', 'a', '"', ':'})
+		}
+	}
+}
+
+// StallAfterBytes arms every current connection: once n payload bytes have passed in direction dir ("c2s"/"s2c"),
+// the connection stalls (as with CutAll("stall")) and the returned channel is closed. This pauses the path in the
+// middle of a large transfer no matter how long the sender took to start writing.
+func (p *Proxy) StallAfterBytes(dir string, n int) <-chan struct{} {
+	ch := make(chan struct{})
+	p.mu.Lock()
+	for _, pc := range p.conns {
+		pc.armDir, pc.armLeft, pc.armCh = dir, int64(n), ch
+	}
+	p.mu.Unlock()
+	return ch
+}
+
+func (pc *pconn) passed(dir string, n int) {
+	pc.p.mu.Lock()
+	defer pc.p.mu.Unlock()
+	if pc.armCh == nil || pc.armDir != dir {
+		return
+	}
+	pc.armLeft -= int64(n)
+	if pc.armLeft <= 0 {
+		atomic.StoreInt32(&pc.stalled, 1)
+		close(pc.armCh)
+		pc.armCh = nil
+	}
+}
+
+// Unstall resumes reading on stalled connections.
+func (p *Proxy) Unstall() {
+	p.mu.Lock()
+	cs := append([]*pconn{}, p.conns...)
+	p.mu.Unlock()
+	for _, pc := range cs {
+		atomic.StoreInt32(&pc.stalled, 0)
 	}
 }
 
@@ -401,8 +470,20 @@ func (pc *pconn) pump(dir string, src, dst net.Conn) {
 			return
 		}
 		payload := make([]byte, plen)
-		if _, err := io.ReadFull(br, payload); err != nil {
-			return
+		// read in pieces so that a stall also takes effect in the middle of a large frame
+		for off := 0; off < len(payload); {
+			for atomic.LoadInt32(&pc.stalled) == 1 && atomic.LoadInt32(&pc.dead) == 0 {
+				time.Sleep(time.Millisecond)
+			}
+			end := off + 64<<10
+			if end > len(payload) {
+				end = len(payload)
+			}
+			if _, err := io.ReadFull(br, payload[off:end]); err != nil {
+				return
+			}
+			pc.passed(dir, end-off)
+			off = end
 		}
 		// framing validation
 		if rsv != 0 {
